@@ -166,8 +166,8 @@ class Tensor:
         if self.free_indices > 0 or other.free_indices > 0:
             raise NotImplementedError("tensor_product is only implemented for tensors without free indices")
         offset = self.rank
-        covariant = list(self._covariant_indices) + [offset + i for i in other._covariant_indices]
-        contravariant = list(self._contravariant_indices) + [offset + i for i in other._contravariant_indices]
+        covariant = sorted(self._covariant_indices) + [offset + i for i in sorted(other._covariant_indices)]
+        contravariant = sorted(self._contravariant_indices) + [offset + i for i in sorted(other._contravariant_indices)]
 
         result = np.tensordot(self.array, other.array, 0)  # type: ignore[arg-type]
         result = np.transpose(result, axes=covariant + contravariant)
@@ -645,7 +645,7 @@ class TensorDiagram:
         self._nodes.append(node)
         self._node_positions.append(self._index_count)
         self._index_count += node.rank
-        ind = (list(node._covariant_indices), list(node._contravariant_indices))
+        ind = (sorted(node._covariant_indices), sorted(node._contravariant_indices))
         self._unused_indices.append(ind)
         return ind
 
@@ -677,10 +677,10 @@ class TensorDiagram:
         else:
             # Second step: Determine the free indices of new nodes, the nodes are only added once the edge is valid
             if source_index is None:
-                free_source = list(source._covariant_indices)
+                free_source = sorted(source._covariant_indices)
 
             if target_index is None:
-                free_target = list(target._contravariant_indices)
+                free_target = sorted(target._contravariant_indices)
 
         if len(free_source) == 0 or len(free_target) == 0:
             raise TensorComputationError("Could not add the edge because no indices are left.")
